@@ -32,9 +32,15 @@ def main():
             rr = subprocess.run([sys.executable, os.path.join(VERIF, "tools", "run_on_tree.py"), dst, "--jobs", jobs], capture_output=True, text=True)
             exits = {l.split()[0]: int(l.split("exit=")[1]) for l in rr.stdout.splitlines() if l[:1] == "C" and "exit=" in l}
             out[rid] = dict(applied=True, exits=exits)
-            bad = {k: v for k, v in exits.items() if v != 0}
+            allowed = []
+            ef = os.path.join(VERIF, "benign", rid, "expected.json")
+            if os.path.exists(ef):
+                allowed = json.load(open(ef)).get("inconclusive_allowed", [])
+            # exit 1 (a VIOLATION line) on a behaviour-preserving change is a false alarm and never allowed; exit 3 only where listed
+            bad = {k: v for k, v in exits.items() if v != 0 and not (v == 3 and k in allowed)}
+            out[rid]["inconclusive"] = sorted(k for k, v in exits.items() if v == 3)
             ok = ok and not bad and len(exits) == 20
-            print("%-4s %s" % (rid, "all 20 checks exit 0" if not bad and len(exits) == 20 else "NON-ZERO: %s" % bad))
+            print("%-4s %s" % (rid, ("all 20 checks exit 0" if not out[rid]["inconclusive"] else "no alarm; inconclusive (listed): %s" % out[rid]["inconclusive"]) if not bad and len(exits) == 20 else "NON-ZERO: %s" % bad))
         finally:
             shutil.rmtree(tmp, ignore_errors=True)
     head = subprocess.run("git -C /repo rev-parse --short HEAD", shell=True, capture_output=True, text=True).stdout.strip()
